@@ -148,6 +148,7 @@ func (e *Engine) addFramePropObligations() {
 	e.vmRegisterPrivacyObligations()
 	e.tableAlignmentObligations()
 	e.opcodeCoverageObligations()
+	e.addPEGObligations()
 	_ = info
 }
 
@@ -935,4 +936,17 @@ func (e *Engine) opcodeCoverageObligations() {
 		e.frameObl("struct:opcode-coverage/"+op, []string{"C02", "C08"}, handled[op], "",
 			"opcode "+op+" (emitted by "+emitted[op]+") has a case in the VM", "no case for "+op+" in evaluate")
 	}
+}
+
+// addPEGObligations: Engine B — the grammar table is extracted from roll.peg.go on every run.
+func (e *Engine) addPEGObligations() {
+	g, err := e.parsePEG()
+	if err != nil {
+		e.frameObl("peg:extract", []string{"C03", "C08", "C13", "C16", "C18"}, false, "", "the grammar table g can be read from roll.peg.go", err.Error())
+		return
+	}
+	e.frameObl("peg:extract", []string{"C03", "C08", "C13", "C16", "C18"}, true, "", fmt.Sprintf("the grammar table g is read from roll.peg.go (%d rules)", len(g.Rules)), "")
+	pa := &pegAnalysis{e: e, g: g, stripped: map[int]string{}}
+	pa.fixpoints()
+	e.addPEGAtomicity(pa)
 }
